@@ -708,6 +708,7 @@ pub fn run<R>(cfg: RunConfig, f: impl FnOnce() -> R) -> Result<(Option<R>, Outco
             }
         }
     }
+    crate::io::stop_clock_fault();
     let deadline = Instant::now() + Duration::from_secs(20);
     while LIVE_OS_THREADS.load(Ordering::SeqCst) != 0 {
         if Instant::now() > deadline {
